@@ -41,6 +41,15 @@ CHECKS = {
              note=_TB + " Assumed: IEEE-754 (x-int(x) exact), '%.17f' % x and float(str) correctly rounded (CPython dtoa), ASCII digit contents. "
                   'Shapes are bounded by length (superset of the property domain 4/7); a sampled-grid stand-in on the real functions runs as second line.',
              technique='contract-based deductive verification: symbolic execution over shape-typed strings / float proxy / abstract values with loop cut -> LIA/LRA -> z3'),
+ 'C11': dict(category='other',
+             text='For every table row of Tyrving (all ages), QuadKids, Sportshall and Bulgarian: points returned by the real public function = '
+                  'exact-arithmetic table formula / look-up for every integer centi-mark in and well beyond the table, for float, int and the '
+                  'documented text forms (symbolic digits), with float-robustness obligations at every truncation decided exactly in rational '
+                  'arithmetic; table order / key validity as complete ground obligations. Level other (not proof) because one ground obligation '
+                  'is a recorded known finding (Bulgarian U16F600 rows).',
+             note=_TB + ' IEEE-754 binary64 error analysis in the float proxy (u=2^-53); float(str) correctly rounded; marks on the 0.01 grid; '
+                  'text shapes bounded in length (listed per unit).',
+             technique='contract-based deductive verification: symbolic execution with float proxy (exact affine value + certified error) -> LIA -> z3; ground table obligations'),
 }
 _NYB = 'check not built yet in this build round (planned, see DESIGN.md §5); no claim is made'
-NOT_APPLICABLE = {p: _NYB for p in ['C01','C02','C03','C05','C07','C08','C09','C10','C11','C12','C14','C15','C16','C18']}
+NOT_APPLICABLE = {p: _NYB for p in ['C01','C02','C03','C05','C07','C08','C09','C10','C12','C14','C15','C16','C18']}
